@@ -21,7 +21,8 @@ fn analyze_number_of_iterations_to_break_less_than_guard(
   if guard_increment_amount <= 0 {
     return None;
   }
-  let difference = guarded_value - initial_guard_value;
+  // With a positive increment, the subtraction can only overflow when the gap is too wide to count.
+  let difference = guarded_value.checked_sub(initial_guard_value)?;
   let count =
     difference / guard_increment_amount + ((difference % guard_increment_amount != 0) as i32);
   Some(count)
@@ -33,7 +34,7 @@ fn analyze_number_of_iterations_to_break_guard(
   operator: GuardOperator,
   guarded_value: i32,
 ) -> Option<i32> {
-  match operator {
+  let count = match operator {
     GuardOperator::LT => analyze_number_of_iterations_to_break_less_than_guard(
       initial_guard_value,
       guard_increment_amount,
@@ -42,19 +43,23 @@ fn analyze_number_of_iterations_to_break_guard(
     GuardOperator::LE => analyze_number_of_iterations_to_break_less_than_guard(
       initial_guard_value,
       guard_increment_amount,
-      guarded_value + 1,
+      guarded_value.checked_add(1)?,
     ),
     GuardOperator::GT => analyze_number_of_iterations_to_break_less_than_guard(
-      -initial_guard_value,
-      -guard_increment_amount,
-      -guarded_value,
+      initial_guard_value.checked_neg()?,
+      guard_increment_amount.checked_neg()?,
+      guarded_value.checked_neg()?,
     ),
     GuardOperator::GE => analyze_number_of_iterations_to_break_less_than_guard(
-      -initial_guard_value,
-      -guard_increment_amount,
-      -(guarded_value - 1),
+      initial_guard_value.checked_neg()?,
+      guard_increment_amount.checked_neg()?,
+      guarded_value.checked_sub(1)?.checked_neg()?,
     ),
-  }
+  }?;
+  // The closed form is only valid if the induction variable reaches its final value
+  // without wrapping around.
+  initial_guard_value.checked_add(guard_increment_amount.checked_mul(count)?)?;
+  Some(count)
 }
 
 pub(super) fn optimize(
